@@ -314,7 +314,12 @@ impl NormalizedDurationRecord {
     }
 
     pub(crate) fn sign(&self) -> TemporalResult<Sign> {
-        Ok(self.date.sign())
+        // InternalDurationSign: the sign of the date part, otherwise of the time part.
+        let date_sign = self.date.sign();
+        if date_sign != Sign::Zero {
+            return Ok(date_sign);
+        }
+        Ok(self.norm.sign())
     }
 }
 
